@@ -2,6 +2,7 @@
 import gen
 
 ENCS = ['utf-8', 'utf-16', 'latin1', 'utf-32-be', 'cp1252', 'UTF-16', 'utf-8-sig', 'cp037']
+UNREPRESENTABLE = ['latin-1\n', 'utf-8\n', 'utf 8', 'latin 1', '1252', '437']
 
 
 def gen_hunk_diff(rng, nl=b'\n'):
@@ -39,6 +40,8 @@ def gen_content(rng, kind, valid=True):
     enc = rng.choice(ENCS) if rng.random() < 0.3 else None
     if enc:
         opts['encoding'] = enc
+    elif rng.random() < 0.01:
+        opts['encoding'] = rng.choice(UNREPRESENTABLE[:2])     # python resolves 'utf-8\n' to utf-8
     if kind == 'preamble':
         content = None if rng.random() < 0.3 else gen.gen_text(rng, enc or 'latin1')
         if rng.random() < 0.4:
@@ -76,10 +79,16 @@ def gen_tree(rng, max_changes=3, max_files=3, main_enc=None):
         c = {'opts': {}, 'preamble': gen_content(rng, 'preamble'), 'meta': gen_content(rng, 'meta'), 'files': []}
         if rng.random() < 0.3:
             c['opts']['encoding'] = rng.choice(ENCS)
+        elif rng.random() < 0.03:
+            # strings the typed attribute accepts but a header cannot carry: the tree must not
+            # serialise, or must come back the same (D28)
+            c['opts']['encoding'] = rng.choice(UNREPRESENTABLE)
         for _f in range(rng.randint(0, max_files)):
             f = {'opts': {}, 'meta': gen_content(rng, 'meta'), 'diff': gen_content(rng, 'diff')}
             if rng.random() < 0.3:
                 f['opts']['encoding'] = rng.choice(ENCS)
+            elif rng.random() < 0.02:
+                f['opts']['encoding'] = rng.choice(UNREPRESENTABLE)
             c['files'].append(f)
         t['changes'].append(c)
     return t
